@@ -68,7 +68,12 @@ class EquationParser(object):
             # Any usage of 'exogenous' switches over to the Exogenous block
             # I could skip this, but would need to use eval(), which is dangerous with
             # untrusted inputs.
-            if 'exogenous' in equation.lower():
+            # Only the code part of a line is examined; a trailing comment that happens to contain the
+            # word must not switch sections. (A line that is nothing but a comment still acts as a marker.)
+            code_part = equation.split('#', 1)[0]
+            if len(code_part.strip()) == 0:
+                code_part = equation
+            if 'exogenous' in code_part.lower():
                 mode = 'exogenous'
                 continue
             # Remove comments (like this one!)
